@@ -43,6 +43,7 @@ from pdfminer.pdftypes import (
     dict_value,
     int_value,
     list_value,
+    resolve1,
     str_value,
     stream_value,
     uint_value,
@@ -992,14 +993,12 @@ class PDFDocument:
 
         def lookup(d: Dict[str, Any]) -> Any:
             if "Limits" in d:
-                (k1, k2) = list_value(d["Limits"])
+                (k1, k2) = (resolve1(k) for k in list_value(d["Limits"]))
                 if key < k1 or k2 < key:
                     return None
             if "Names" in d:
                 objs = list_value(d["Names"])
-                names = dict(
-                    cast(Iterator[Tuple[Union[str, bytes], Any]], choplist(2, objs)),
-                )
+                names = {resolve1(k): v for (k, v) in choplist(2, objs)}
                 return names[key]
             if "Kids" in d:
                 for c in list_value(d["Kids"]):
@@ -1120,7 +1119,7 @@ class PageLabels(NumberTree):
 
         for next, (start, label_dict_unchecked) in enumerate(ranges, 1):
             label_dict = dict_value(label_dict_unchecked)
-            style = label_dict.get("S")
+            style = resolve1(label_dict.get("S"))
             prefix = decode_text(str_value(label_dict.get("P", b"")))
             first_value = int_value(label_dict.get("St", 1))
 
